@@ -590,8 +590,19 @@ where
             "if you're not gonna store any cells then why are you even calling this function?"
         );
 
+        let usable_space = Self::usable_space(page_size) as usize;
+
+        // The tree inserts first and splits afterwards, and rebalancing pushes separator cells
+        // (copies of leaf cells, overflow page id included) into the parent page. A page that has
+        // not reached the overflow threshold must therefore still have room for one more cell of
+        // the largest size we store plus its overflow page id, whatever [min_cells] is.
+        let room_above_threshold = usable_space - Self::overflow_threshold(page_size);
+        let largest_above_threshold = Self::max_payload_size_in(room_above_threshold)
+            .saturating_sub(mem::size_of::<PageId>())
+            & !(CELL_ALIGNMENT as usize - 1);
+
         let ideal_size =
-            Self::max_payload_size_in(Self::usable_space(page_size) as usize / min_cells);
+            Self::max_payload_size_in(usable_space / min_cells).min(largest_above_threshold);
 
         debug_assert!(
             ideal_size > 0,
